@@ -351,20 +351,41 @@ impl<'a> Exec<'a> {
             }
         }
         if !aborted {
-            for (i, ev) in trace.events.iter().enumerate() {
+            'outer: for (i, ev) in trace.events.iter().enumerate() {
                 e.sink.idx = i;
                 executed = i + 1;
-                e.p.steps += 1;
-                let r = e.step(ev);
-                e.sink.evals[R::C18_panic as usize] += 1;
-                if let Err(Panicked(l)) = r {
-                    e.sink.check(R::C18_panic, false, || format!("panic in {} while executing event {}: {}", apimon::LABEL_NAMES[l as usize], i, ev.to_json().compact()));
-                    // the panic machinery allocates; do not blame that on C18.alloc
-                    break;
+                // a soak loop re-executes the k events before it n more times
+                let (lo, rounds) = match ev {
+                    Ev::Repeat { k, n } => {
+                        e.p.soak_loops += 1;
+                        (i.saturating_sub(*k as usize), *n as usize)
+                    }
+                    _ => (i, 1),
+                };
+                for _ in 0..rounds {
+                    for j in lo..=i {
+                        let ev = &trace.events[j];
+                        if j < i {
+                            if matches!(ev, Ev::Repeat { .. }) {
+                                continue;
+                            }
+                            e.p.soak_steps += 1;
+                        } else if matches!(ev, Ev::Repeat { .. }) {
+                            continue;
+                        }
+                        e.p.steps += 1;
+                        let r = e.step(ev);
+                        e.sink.evals[R::C18_panic as usize] += 1;
+                        if let Err(Panicked(l)) = r {
+                            e.sink.check(R::C18_panic, false, || format!("panic in {} while executing event {}: {}", apimon::LABEL_NAMES[l as usize], j, ev.to_json().compact()));
+                            // the panic machinery allocates; do not blame that on C18.alloc
+                            break 'outer;
+                        }
+                        let a = apimon::allocs_in_api();
+                        e.sink.check(R::C18_alloc, a == allocs_seen, || format!("{} heap allocation(s) inside API regions while executing event {}: {}", a - allocs_seen, j, ev.to_json().compact()));
+                        allocs_seen = a;
+                    }
                 }
-                let a = apimon::allocs_in_api();
-                e.sink.check(R::C18_alloc, a == allocs_seen, || format!("{} heap allocation(s) inside API regions while executing event {}: {}", a - allocs_seen, i, ev.to_json().compact()));
-                allocs_seen = a;
             }
         }
         // unfinished round-trip trackers
@@ -530,6 +551,7 @@ impl<'a> Exec<'a> {
             Ev::EncCc14 { g, ch, cn, val, fac } => self.enc_cc14(*g, *ch, *cn, *val, *fac),
             Ev::EncPn { g, ch, num, val, reg, kind, order, fac } => self.enc_pn(*g, *ch, *num, *val, *reg, *kind, *order, *fac),
             Ev::Fork { k, burst } => self.do_fork(*k, burst),
+            Ev::Repeat { .. } => Ok(()),
             Ev::Snapshot => self.do_snapshot(),
             Ev::Restore => self.do_restore(),
         }
